@@ -229,6 +229,46 @@ var c03Kinds = []faultKind{
 			fmt.Fprintf(sb, "TYPE @or%d\n{\n  \"a\": @or%d, // {optional: true}\n  \"b\": @nf%d | @or%d\n}\n", *u, *u, *u, *u)
 		}
 	}},
+	{"several-duplicated-path-params", func(sb *strings.Builder, k int, u *int) {
+		*u++
+		var names []string
+		for i := 0; i < k; i++ {
+			names = append(names, fmt.Sprintf("{q%d}", i))
+		}
+		fmt.Fprintf(sb, "GET /dp%d/%s/again/%s\n  200 any\n", *u, strings.Join(names, "/"), strings.Join(names, "/"))
+	}},
+	{"several-empty-path-params", func(sb *strings.Builder, k int, u *int) {
+		*u++
+		fmt.Fprintf(sb, "GET /ep%d/%s\n  200 any\n", *u, strings.TrimSuffix(strings.Repeat("{}/x/", k), "/x/"))
+	}},
+	{"several-unknown-path-properties-two-paths", func(sb *strings.Builder, k int, u *int) {
+		for j := 0; j < 2; j++ {
+			*u++
+			fmt.Fprintf(sb, "GET /up%d/{id}\n  Path\n  {\n    \"id\": 1", *u)
+			for i := 0; i < k; i++ {
+				fmt.Fprintf(sb, ",\n    \"zz%d_%d\": %d", *u, i, i)
+			}
+			sb.WriteString("\n  }\n  200 any\n")
+		}
+	}},
+	{"several-duplicate-enums-servers-tags", func(sb *strings.Builder, k int, u *int) {
+		for i := 0; i < k; i++ {
+			*u++
+			fmt.Fprintf(sb, "ENUM @de%d\n[1]\nENUM @de%d\n[2]\nSERVER @ds%d\n  BaseUrl \"https://a/\"\nSERVER @ds%d\n  BaseUrl \"https://b/\"\nTAG @dt%d\nTAG @dt%d\n", *u, *u, *u, *u, *u, *u)
+		}
+	}},
+	{"several-non-object-allof-bases", func(sb *strings.Builder, k int, u *int) {
+		for i := 0; i < k; i++ {
+			*u++
+			fmt.Fprintf(sb, "TYPE @nb%d\n1\nTYPE @nu%d\n{ // {allOf: \"@nb%d\"}\n  \"a\": 1\n}\n", *u, *u, *u)
+		}
+	}},
+	{"several-headers-not-object", func(sb *strings.Builder, k int, u *int) {
+		for i := 0; i < k; i++ {
+			*u++
+			fmt.Fprintf(sb, "GET /hn%d\n  200\n    Headers\n    [1]\n    Body any\n", *u)
+		}
+	}},
 	{"empty-bodies", func(sb *strings.Builder, k int, u *int) {
 		for i := 0; i < k; i++ {
 			*u++
